@@ -141,8 +141,16 @@ def check_case(case):
     # the real migration
     H.reset_state()
     buf = io.StringIO()
-    with contextlib.redirect_stdout(buf):
-        ok = cli._migrate_csv_to_rules(csv_path, cfg, backup=True)
+    mig = getattr(cli, "_migrate_csv_to_rules", None)
+    if mig is not None:
+        with contextlib.redirect_stdout(buf):
+            ok = mig(csv_path, cfg, backup=True)
+    else:
+        # the helper is private; if a refactor moved it, run the migration the way a user does
+        from mc.core import proc
+        r = proc.run_cli(["up", "--migrate", "--summary"], cwd=base)
+        buf.write(r["stdout"][-300:] + r["stderr"][-300:])
+        ok = os.path.exists(os.path.join(cfg, "merchants.rules"))
     new_path = os.path.join(cfg, "merchants.rules")
     evals = 0
     outcomes = set()
